@@ -52,6 +52,8 @@ def run(rep: vlib.Reporter, tier: str, seed: int) -> None:
     specs += [daggen.gen_siblings(rng) for _ in range(30 if big else 5)]
     # a requested column produced by a step whose table another worker still has to read (framework change / join)
     specs += [daggen.gen_partial_request(rng) for _ in range(40 if big else 8)]
+    # one uploaded table read by several other workers, the last of them late (transform steps + the join with a slow source)
+    specs += [daggen.gen_shared_upload(rng) for _ in range(12 if big else 3)]
     n_sched = 8 if big else 4
     n_mp = 3 if big else 1
     recs = [one_spec(s, rng, n_sched) for s in specs]
